@@ -141,7 +141,7 @@ def check_data_dir(s, bad):
         bad(f"{kind}|unexpected_files", f"unexpected files under the data dir: {extra[:3]}")
 
 
-def apply(s, op):
+def apply(s, op, dir_check=None):
     import dds
     probs = []
 
@@ -198,7 +198,7 @@ def apply(s, op):
                 bad(f"load|committed|{r[0]}", f"load -> {r!r}, latest kept {expected(fn, x)!r}")
         elif r[0] == "ok" and not has_record:
             bad("load|served_without_record", f"load -> {r!r} although no record exists")
-    check_data_dir(s, bad)
+    (dir_check or check_data_dir)(s, bad)
     return probs
 
 
@@ -407,22 +407,64 @@ def check_fault(ct, target, at):
         teardown(s)
 
 
-def check_mixed(ct1, ct2, target):
-    """one data directory used first with commit type ct1, then with ct2 (a configuration change): what ct2 promises holds for
-    the results kept again under it, changed or not"""
+def check_mixed(phases, target):
+    """one data directory used under a sequence of configurations: phases = [(commit type, value of the tracked variable)], the
+    same keep / eval repeated in each. After every phase: what the commit type of the LATEST keep of a path promises holds for
+    that path (record for links-only and full, byte-identical copy for full); a links-only phase changes nothing but records and a
+    'none' phase changes nothing under the data directory."""
     import dds
-    s = build(ct1)
+    s = build(phases[0][0])
     probs = []
     try:
         if s.open_result[0] != "ok":
             return probs
         op = {"a": ("keep", "a"), "b": ("keep", "b"), "eval": ("eval",)}[target]
-        if apply(s, op):
-            return probs   # reported by the plain sequences
-        dds.set_store("dbfs", internal_dir="dbfs:/int", data_dir="dbfs:/data", dbutils=s.db, commit_type=ct2)
-        s.ct = ct2
-        for k, w in apply(s, op):
-            probs.append((k.replace("C19|", f"C19|after_commit_type={ct1}|", 1), f"the data directory was first used with commit_type={ct1!r}: {w}"))
+        touched = {"a": ["/p/a"], "b": ["/p/b"], "eval": ["/.q/x", "/q/y/z"]}[target]
+        kinds = {}
+        hist = []
+        for n, (ct, x) in enumerate(phases):
+            if n:
+                dds.set_store("dbfs", internal_dir="dbfs:/int", data_dir="dbfs:/data", dbutils=s.db, commit_type=ct)
+                s.ct = ct
+            apply(s, ("set", x))
+            hist.append(f"{ct}:X={x}")
+            before = {k: v for k, v in s.db.fs.files.items() if k.startswith("dbfs:/data")}
+
+            def dir_check(s, bad, ct=ct, before=before):
+                files = s.db.fs.files
+                under = {k: v for k, v in files.items() if k.startswith("dbfs:/data")}
+                for p_ in touched:
+                    if p_ in s.committed:
+                        kinds[p_] = ct
+                if ct == "none" and under != before:
+                    bad("none|wrote_under_data_dir", f"commit type 'none' changed {sorted(k for k in set(under) | set(before) if under.get(k) != before.get(k))[:3]}")
+                if ct == "links_only":
+                    ch = [k for k in set(under) | set(before) if under.get(k) != before.get(k) and not k.startswith("dbfs:/data/_dds_meta/")]
+                    if ch:
+                        bad("links|copied_data", f"a links-only commit changed {sorted(ch)[:3]}")
+                for path, (fn, xx) in s.committed.items():
+                    kind = kinds.get(path)
+                    if kind in (None, "none"):
+                        continue
+                    rec = under.get("dbfs:/data/_dds_meta" + path)
+                    if rec is None:
+                        bad(f"{kind}|record_missing", f"no redirect record for {path}")
+                        continue
+                    sig = json.loads(rec)["redirection_key"]
+                    blob = files.get("dbfs:/int/blobs/" + sig)
+                    want = enc(expected(fn, xx))
+                    if blob is None or (want is not None and blob != want) or (want is None and pickle.loads(blob) != expected(fn, xx)):
+                        bad(f"{kind}|record_names_other_result", f"the record of {path} does not name the blob of the result kept last ({fn}, X={xx})")
+                        continue
+                    if kind == "full" and under.get("dbfs:/data" + path) != blob:
+                        c = under.get("dbfs:/data" + path)
+                        bad("full|copy_differs" if c is not None else "full|copy_missing",
+                            f"after a 'full' keep of {path} the copy at dbfs:/data{path} is {c[:20] if c else c!r}, the kept result's blob is {blob[:20]!r}")
+
+            for k, w in apply(s, op, dir_check):
+                probs.append((k.replace("C19|", "C19|mixed_commit_types|", 1), f"history {' -> '.join(hist)}: {w}"))
+            if probs:
+                return probs
         return probs
     finally:
         teardown(s)
@@ -508,20 +550,27 @@ def run(tier, seed):
                 for k, w in pr:
                     res.violations.append(Violation(P, k, w, {"mode": "fault_revert", "ct": ct, "target": target, "at": at}))
                 at += 1
-    # a data directory first used with another commit type
+    # one data directory under sequences of (commit type, code version): every sequence of the given length
+    import itertools
     n_mixed = 0
-    for ct1, ct2 in (("links_only", "full"), ("none", "full"), ("none", "links_only")):
+    seen_mixed = set()
+    L = 3 if tier == "quick" else 4
+    for phases in itertools.product([(c, x) for c in ("full", "links_only", "none") for x in (0, 1)], repeat=L):
         for target in ("a", "b", "eval"):
             n_mixed += 1
-            for k, w in check_mixed(ct1, ct2, target):
-                res.violations.append(Violation(P, k, w, {"mode": "mixed", "ct1": ct1, "ct2": ct2, "target": target}))
+            for k, w in check_mixed(list(phases), target):
+                if k in seen_mixed:
+                    continue   # one (shortest-first in product order) history per cause
+                seen_mixed.add(k)
+                res.violations.append(Violation(P, k, w, {"mode": "mixed", "phases": [list(p_) for p_ in phases], "target": target}))
     res.violations.sort(key=lambda v: len(v.replay.get("ops", [])))
     trans += n_fault + n_mixed
     res.coverage = dict(fault_points=n_fault, states=states, transitions=trans + n_leg, traces_validated_against_impl=trans + n_leg, per_commit_type=per,
                         legacy_cases=n_leg, exhaustive=False,
                         rule="per commit-type spelling: BFS over {keep str result, keep bytes result, eval with two nested keeps (one pickled, "
                              "3-segment path), edit tracked variable, load of 4 paths}; state = (variable, committed map, all files of the fake); "
-                             "after every transition the data directory is compared with the model for that commit type",
+                             "after every transition the data directory is compared with the model for that commit type; plus every sequence of "
+                             "3 (quick) / 4 (thorough) phases (commit type, code version) on one data directory with a phase-aware oracle",
                         samples=[s for o in outs for s in o["samples"]][:4])
     res.assumptions = ["dbutils.fs is a dictionary-backed fake (cp incl. file: scheme, head, put, rm); real DBFS consistency is not modelled",
                        "documented commit types are 'none', 'links_only', 'full' (docstring of dds.set_store), any letter case"]
@@ -538,7 +587,7 @@ def replay(case):
     if case["mode"] == "fault_revert":
         return [Violation(P, k, w, case) for k, w in check_fault_then_revert(case["ct"], case["target"], case["at"])[0]]
     if case["mode"] == "mixed":
-        return [Violation(P, k, w, case) for k, w in check_mixed(case["ct1"], case["ct2"], case["target"])]
+        return [Violation(P, k, w, case) for k, w in check_mixed([tuple(p_) for p_ in case["phases"]], case["target"])]
     s = build(case["ct"])
     try:
         for op in case["ops"]:
